@@ -73,6 +73,17 @@ var wrappers = []wrapperFn{
 	{"*fs.PathError around fmt.Errorf(%w)", wcGeneric, func(e error) error {
 		return &fs.PathError{Op: "open", Path: "/data/a.bin", Err: fmt.Errorf("step 3: %w", e)}
 	}},
+	// the same condition on paths whose NAMES contain ordinary words which also occur in error texts (none of them is a
+	// phrase the converters look for today): the kind follows the condition, not the file name
+	{"*fs.PathError on a path named like a symptom (timeout)", wcOS, func(e error) error {
+		return &fs.PathError{Op: "open", Path: "/etc/app/request-timeout.cfg", Err: e}
+	}},
+	{"*fs.PathError on a path named like a symptom (timed out)", wcOS, func(e error) error {
+		return &fs.PathError{Op: "stat", Path: "/var/log/job timed out.log", Err: e}
+	}},
+	{"*os.LinkError on paths named like symptoms", wcOS, func(e error) error {
+		return &os.LinkError{Op: "rename", Old: "/data/denied-requests.csv", New: "/data/expired/cancelled-orders.csv", Err: e}
+	}},
 }
 
 // timeoutOnly is a net.Error-like value: it says it is a timeout only through its Timeout() method.
